@@ -212,6 +212,22 @@ def run_shape(desc):
         n = refusals(pub, point, problems, opub, msg)
         if pub.pubkey is not pub:
             problems.append('%s: pubkey of a public key is not itself' % point)
+        # the public counterpart of each SUBKEY object, derived from the subkey itself (priv.subkeys[id].pubkey: its parent is the private
+        # primary) and taken from the derived public key: public subkey packet and signatures only, none of the secret octets
+        for how, subobjs in (('public counterpart of private subkey', [sk.pubkey for sk in k.subkeys.values()]), ('subkey of the derived public key', list(pub.subkeys.values()))):
+            for si, so in enumerate(subobjs):
+                try:
+                    for form, octets in (('binary', bytes(so)), ('armored', dearmor(str(so))[1])):
+                        tg = [t for t, _, _ in indep.packets(octets)]
+                        if not tg or tg[0] != 14 or set(tg) - {14, 2}:
+                            problems.append('%s: %s %d (%s) exports packet tags %s, expected a public-subkey packet and its signatures' % (point, how, si, form, tg))
+                        for what, soct in secrets.items():
+                            if soct in octets:
+                                problems.append('%s: %s %d (%s) export contains the octets of %s' % (point, how, si, form, what))
+                    if not so.is_public:
+                        problems.append('%s: %s %d is not public' % (point, how, si))
+                except Exception as ex:
+                    problems.append('%s: %s %d: export raised %s: %s' % (point, how, si, type(ex).__name__, str(ex)[:60]))
         rec(point, problems, n + 1)
         # loaded from the export
         problems = []
